@@ -61,6 +61,35 @@ Section EngineRel.
     crel (cache_of S In Out Lay u) (cache_of S In Out Lay u').
 End EngineRel.
 
+(* C12: a style and its rewrite.  `ok` = the node is well behaved (its measure function does not distinguish equal numbers),
+   `elig` = the class of nodes the property quantifies over, `tb` = the rewrite content-box -> border-box.  Two skeletons
+   related by `skrel (bsrel ok tb elig)` differ by rewriting SOME SUBSET of the eligible nodes. *)
+Definition bsrel {S : Type} (ok : S -> Prop) (tb : S -> S) (elig : S -> Prop) (s s' : S) : Prop :=
+  ok s /\ (s' = s \/ (elig s /\ s' = tb s)).
+
+(* an algorithm reads box_sizing / size / min_size / max_size (/ flex_basis) of a node -- its own and its children's -- only
+   through the adjusted view: run on a node and child styles of which any eligible ones are rewritten, and on an input that is
+   equal as numbers (EI), the resumption is the same up to EI on queries, EL on stored layouts, EO on the result, given
+   answers equal up to EO *)
+Definition BoxSizingBlind (S In Out Lay : Type) (ok : S -> Prop) (tb : S -> S) (elig : S -> Prop)
+           (EI : In -> In -> Prop) (EO : Out -> Out -> Prop) (EL : Lay -> Lay -> Prop)
+           (algo : S -> list S -> In -> Alg In Out Lay) : Prop :=
+  AlgoRel S In Out Lay (bsrel ok tb elig) EI EO EL algo algo.
+
+(* C04: an algorithm is homogeneous w.r.t. a scaling relation on styles / inputs / outputs / layouts *)
+Definition Homogeneous (S In Out Lay : Type) (RS : S -> S -> Prop) (RI : In -> In -> Prop) (RO : Out -> Out -> Prop)
+           (RL : Lay -> Lay -> Prop) (algo : S -> list S -> In -> Alg In Out Lay) : Prop :=
+  AlgoRel S In Out Lay RS RI RO RL algo algo.
+
+(* every stored layout of a tree, in preorder; a predicate holding at every node of a skeleton *)
+Section Lays.
+  Variables (S In Out Lay : Type).
+  Fixpoint lays (t : tree S In Out Lay) : list Lay :=
+    match t with Node _ _ _ _ _ _ l kids => l :: flat_map lays kids end.
+  Inductive sk_all (P : S -> Prop) : sk S -> Prop :=
+  | sk_all_node s kids : P s -> Forall (sk_all P) kids -> sk_all P (SNode S s kids).
+End Lays.
+
 (* rewriting the styles of a skeleton at the paths selected by `w` (root = []) *)
 Section MapFrom.
   Context {A B : Type}.
